@@ -536,9 +536,13 @@ let on_event (case : string) (cmd : string) (x : sx) =
     | L [A "ev"; A "merge"; _; _] ->
         stat "merges"; merges_seen := true; case_nontrivial := true;
         classes := Known.classify !ty (List.rev_map (fun (_, o, _) -> o) !hist)
-    | L [A "ev"; A "spawn"; _; _] ->
-        stat "spawns"; merges_seen := true;   (* a snapshot copy carries state like a merge does *)
-        classes := Known.classify !ty (List.rev_map (fun (_, o, _) -> o) !hist)
+    | L [A "ev"; A "spawn"; A idx; A from] ->
+        stat "spawns";
+        (* a snapshot copy carries state like a merge does; a fresh replica (from = its own index) does not *)
+        if int_of_string from < int_of_string idx then begin
+          merges_seen := true;
+          classes := Known.classify !ty (List.rev_map (fun (_, o, _) -> o) !hist)
+        end
     | L [A "obs"; A r; L (A "know" :: know); s] ->
         Hashtbl.replace know_of r (List.map int_sx know);
         if not !tainted && discipline_ok () then spec_check (List.map int_sx know) s
